@@ -4,6 +4,7 @@ import os, sys, json, subprocess, hashlib, time, struct, shutil, concurrent.futu
 ROOT = os.path.dirname(os.path.dirname(os.path.abspath(__file__)))
 REPO = os.environ.get('VERIF_REPO', '/repo')
 BUILD = os.environ.get('VERIF_BUILD', os.path.join(ROOT, 'build'))
+OUT = os.environ.get('VERIF_OUT', ROOT)   # evidence/ and replays/ live here (overridden for mutant runs)
 NPROC = int(os.environ.get('VERIF_JOBS', '16'))
 SEED = int(os.environ.get('VERIF_SEED', '0') or 0)
 LIBOGG = '/usr/lib/x86_64-linux-gnu/libogg.a'
@@ -315,7 +316,7 @@ class Check:
 
     def finish(self):
         wall = time.time() - self.t0
-        os.makedirs(os.path.join(ROOT, 'evidence'), exist_ok=True)
+        os.makedirs(os.path.join(OUT, 'evidence'), exist_ok=True)
         rc = 0
         for key, n in sorted(self.known_hits.items()):
             k = [x for x in self.known if x['key'] == key][0]
@@ -325,7 +326,7 @@ class Check:
             if key in seen:
                 continue
             seen.add(key)
-            d = os.path.join(ROOT, 'replays', self.pid)
+            d = os.path.join(OUT, 'replays', self.pid)
             os.makedirs(d, exist_ok=True)
             hname = hashlib.sha256((key + json.dumps(replay, sort_keys=True, default=str)).encode()).hexdigest()[:12]
             path = os.path.join(d, hname + '.json')
@@ -342,7 +343,7 @@ class Check:
         cov['known_finding_hits'] = self.known_hits
         ev = {'property_id': self.pid, 'tier': self.tier, 'seed': SEED, 'level': self.level, 'coverage': cov,
               'assumptions': self.assumptions, 'wall_s': round(wall, 2), 'violations': len(self.violations)}
-        json.dump(ev, open(os.path.join(ROOT, 'evidence', self.pid + '.json'), 'w'), indent=1, default=str)
+        json.dump(ev, open(os.path.join(OUT, 'evidence', self.pid + '.json'), 'w'), indent=1, default=str)
         if bad_guards and rc == 0:
             print(f'BROKEN-CHECK property={self.pid} vacuity guard failed: {bad_guards}', file=sys.stderr)
             rc = 2
